@@ -21,6 +21,14 @@ pub fn span_str(tcx: TyCtxt<'_>, sp: Span) -> String {
     format!("{}:{}:{}", f, lo.line, lo.col.0 + 1)
 }
 
+pub fn span_full(tcx: TyCtxt<'_>, sp: Span) -> String {
+    let sp = sp.source_callsite();
+    let sm = tcx.sess.source_map();
+    let lo = sm.lookup_char_pos(sp.lo());
+    let hi = sm.lookup_char_pos(sp.hi());
+    format!("{}:{}:{}-{}:{}", span_str(tcx, sp).split(':').next().unwrap_or(""), lo.line, lo.col.0 + 1, hi.line, hi.col.0 + 1)
+}
+
 pub fn expn_str(sp: Span) -> Option<String> {
     if !sp.from_expansion() {
         return None;
@@ -536,6 +544,7 @@ impl<'a, 'tcx> Cx<'a, 'tcx> {
         let mut out = J::k(kind);
         out.put("ty", J::s(&ty));
         out.put("sp", J::s(&span_str(self.tcx, e.span)));
+        out.put("spx", J::s(&span_full(self.tcx, e.span)));
         if let Some(m) = expn_str(e.span) {
             out.put("expn", J::Str(m));
         }
